@@ -282,6 +282,56 @@ def holdsV [DecidableEq α] [DecidableEq μ] (e : Export α μ) (r : Except Err 
 def holds [DecidableEq α] [DecidableEq μ] (e : Export α μ) (r : Except Err (Imported α μ)) : Bool :=
   (holdsV e r).isNone
 
+/-! ### The guard of the property, as decidable checks -/
+
+def noLeadB : Text → Bool
+  | [] => true
+  | c :: _ => !ws c
+
+def noTrailB (s : Text) : Bool :=
+  match s.getLast? with
+  | none => true
+  | some c => !ws c
+
+/-- non-empty, no tab, no blank at either end -/
+def fieldOkB (s : Text) : Bool := !s.isEmpty && !s.contains '\t' && noLeadB s && noTrailB s
+
+/-- an observation ID: a field that does not start with '#' -/
+def idOkB (s : Text) : Bool := fieldOkB s && !startsHash s
+
+/-- the float-text contract on one value -/
+def numOkB [DecidableEq α] (io : NumIO α) (v : α) : Bool :=
+  decide (io.parse (io.fmt v) = some v) && !(io.fmt v).contains '\t' && noLeadB (io.fmt v) &&
+  noTrailB (io.fmt v)
+
+def tableOkB [DecidableEq α] (io : NumIO α) (e : Export α μ) : Bool :=
+  !e.obs.isEmpty && !e.samp.isEmpty && e.obs.all idOkB && e.samp.all fieldOkB &&
+  decide e.obs.Nodup && decide e.samp.Nodup && e.rows.length == e.obs.length &&
+  e.rows.all (fun r => r.length == e.samp.length) && e.rows.all (fun r => r.all (numOkB io)) &&
+  !e.colName.isEmpty && !e.colName.contains '\t' && noLeadB e.colName
+
+/-- no category requested, or: key and header value given, the table has the category for every
+observation, no formatted text contains a tab, NOT every formatted text parses as a number, and the
+processing function inverts the formatter on the (stripped) texts -/
+def mdOkB [DecidableEq μ] (io : NumIO α) (fmtMd : μ → Text) (proc : Text → μ) (e : Export α μ) : Bool :=
+  match e.headerKey, e.headerValue with
+  | none, none => true
+  | some hk, some hv =>
+    !hk.isEmpty && fieldOkB hv &&
+    (match e.md with
+     | none => false
+     | some ms =>
+       ms.length == e.obs.length && ms.all (fun x => !(fmtMd x).contains '\t') &&
+       ms.any (fun x => (io.parse (strip (fmtMd x))).isNone) &&
+       ms.all (fun x => decide (proc (strip (fmtMd x)) = x)))
+  | _, _ => false
+
+def guardB [DecidableEq α] [DecidableEq μ] (io : NumIO α) (fmtMd : μ → Text) (proc : Text → μ)
+    (e : Export α μ) : Bool := tableOkB io e && mdOkB io fmtMd proc e
+
+/-- a line end: blanks without a tab -/
+def eolOkB (e : Text) : Bool := e.all ws && !e.contains '\t'
+
 /-! ### The named family of formatters / processing functions of `biom convert` -/
 
 inductive MdVal where
@@ -447,6 +497,7 @@ def handle (req : Json) : R Json := do
     let mut what : List String := if agree then [] else ["to_tsv lines"]
     let mut models : List (String × Json) := []
     let mut mh := true
+    let mut guard := true
     for (route, lines, pname, checkMd, cli, requested, agreeMd, tj) in results do
       let imp ← asImported tj
       let e' : Export Num MdVal := if checkMd then e else { e with md := none }
@@ -465,9 +516,10 @@ def handle (req : Json) : R Json := do
       -- the theorem's composition: model export, uniform line end, model import
       let eol : Text := if lines.all (fun l => l.getLast? == some '\n') then ['\n'] else []
       mh := mh && holds e' (roundTrip io fmtMd proc eol e)
+      guard := guard && guardB io fmtMd proc e
       models := models ++ [(route, mj)]
     pure (Json.mkObj (verdictToJson verdict ++ [("agree", .bool agree), ("what", strsToJson what),
-      ("model_holds", .bool mh),
+      ("model_holds", .bool mh), ("guard", .bool guard),
       ("model", Json.mkObj [("lines", mlj), ("imported", Json.mkObj models)])]))
   | s => .error s!"bad op {s}"
 
